@@ -169,6 +169,15 @@ def kinds(core_only: bool = False, raisers: bool = True):
         ('separated_seq3', 3, lambda s, x, y: P('separated_seq', s, x, y, x), 'conv'),
         ('separated_seq1', 2, lambda s, x: P('separated_seq', s, x), 'conv'),
         ('rep_string', 1, lambda x: P('seq', P('rep_string', N(2), C(A_), C(B_)), x), 'conv'),
+        # every count up to 7 on its own (the type-level construction may treat odd / even / power-of-two counts differently)
+        ('rep_string0', 0, lambda: P('rep_string', N(0), C(A_)), 'conv'),
+        ('rep_string1', 0, lambda: P('rep_string', N(1), C(A_), C(B_)), 'conv'),
+        ('rep_string3', 0, lambda: P('rep_string', N(3), C(A_)), 'conv'),
+        ('rep_string3ab', 0, lambda: P('rep_string', N(3), C(A_), C(B_)), 'conv'),
+        ('rep_string4', 0, lambda: P('rep_string', N(4), C(A_)), 'conv'),
+        ('rep_string5', 0, lambda: P('rep_string', N(5), C(A_)), 'conv'),
+        ('rep_string6', 0, lambda: P('rep_string', N(6), C(A_)), 'conv'),
+        ('rep_string7', 0, lambda: P('rep_string', N(7), C(A_)), 'conv'),
         ('enable', 1, lambda x: P('enable', x), 'conv'),
         ('disable', 1, lambda x: P('disable', x), 'conv'),
         ('state_c', 1, lambda x: P('state', STATE(0), x), 'state'),
@@ -222,6 +231,11 @@ def kinds(core_only: bool = False, raisers: bool = True):
             ('tc_std_rf2', 2, lambda x, y: P('try_catch_std_return_false', x, y), 'raise'),
             ('tc_any_rn2', 2, lambda x, y: P('try_catch_any_raise_nested', x, y), 'raise'),
             ('tc_std_rn2', 2, lambda x, y: P('try_catch_std_raise_nested', x, y), 'raise'),
+            # the forms that take the exception type as their first argument
+            ('tc_type_std_rf', 1, lambda x: P('try_catch_type_return_false', X('std::exception'), x), 'raise'),
+            ('tc_type_pe_rf2', 2, lambda x, y: P('try_catch_type_return_false', X('tao::pegtl::parse_error'), x, y), 'raise'),
+            ('tc_type_any_rn', 1, lambda x: P('try_catch_type_raise_nested', X('void'), x), 'raise'),
+            ('tc_type_pe_rn2', 2, lambda x, y: P('try_catch_type_raise_nested', X('tao::pegtl::parse_error'), x, y), 'raise'),
         ]
     return ks
 
